@@ -1,7 +1,7 @@
 (* C06/ProofsLife.v — lemmas about the transition systems of C06/ModelLife.v. *)
 From Coq Require Import List Arith NArith Bool Lia.
 Import ListNotations.
-From XV Require Import lib.Lts C06.Model C06.ModelLife.
+From XV Require Import lib.Lts C06.Model C06.ModelLife C06.Proofs.
 
 (* ====================================================================== *)
 (* 1. The life of a response                                               *)
@@ -258,6 +258,19 @@ Proof.
   - intros s0 l s1 I H. exact (iw_never_blocked_step s0 l s1 I H).
 Qed.
 
+(* ... and never ends in the close handler *)
+Lemma iw_never_ended_step s l s' : iw_v s <> VEnded -> iw_step false false s l = Some s' -> iw_v s' <> VEnded.
+Proof.
+  intros N H. destruct l; cbn [iw_step] in H; iw_break H; injection H as <-; cbn; congruence.
+Qed.
+
+Lemma iw_never_ended_run tr s : run (iw_step false false) iw_init tr = Some s -> iw_v s <> VEnded.
+Proof.
+  apply (invariant_run _ _ (iw_step false false) (fun s => iw_v s <> VEnded) iw_init).
+  - discriminate.
+  - intros s0 l s1 I H. exact (iw_never_ended_step s0 l s1 I H).
+Qed.
+
 (* serve progress: in every reachable state the serve goroutine is free or its next step is enabled *)
 Definition iw_serve_waits (b : bool) (s : iwstate) : Prop :=
   match iw_v s with
@@ -265,31 +278,15 @@ Definition iw_serve_waits (b : bool) (s : iwstate) : Prop :=
   | VClose => iw_enabled b s VTry
   | VFlush => iw_enabled b s VFlushDone
   | VBlocked => False
-  | VEnded => iw_broken s = true   (* not a stall: Serve returned the error of an earlier failed data packet *)
+  | VEnded => False
   end.
-
-(* Serve ends in the close handler only with the stale error of a failed data packet *)
-Lemma iw_ended_only_broken_step s l s' :
-  (iw_v s = VEnded -> iw_broken s = true) -> iw_step false false s l = Some s' -> (iw_v s' = VEnded -> iw_broken s' = true).
-Proof.
-  intros I H. destruct l; cbn [iw_step] in H; iw_break H; injection H as <-; cbn; intros; try discriminate; auto;
-    try (rewrite I by congruence; reflexivity); try congruence.
-Qed.
-
-Lemma iw_ended_only_broken_run tr s : run (iw_step false false) iw_init tr = Some s -> iw_v s = VEnded -> iw_broken s = true.
-Proof.
-  apply (invariant_run _ _ (iw_step false false) (fun s => iw_v s = VEnded -> iw_broken s = true) iw_init).
-  - discriminate.
-  - intros s0 l s1 I H. exact (iw_ended_only_broken_step s0 l s1 I H).
-Qed.
 
 Lemma iw_serve_progress_run tr s : run (iw_step false false) iw_init tr = Some s -> iw_serve_waits false s.
 Proof.
-  intro R. pose proof (iw_never_blocked_run tr s R) as N. unfold iw_serve_waits, iw_enabled.
+  intro R. pose proof (iw_never_blocked_run tr s R) as N. pose proof (iw_never_ended_run tr s R) as N2.
+  unfold iw_serve_waits, iw_enabled.
   destruct (iw_v s) eqn:E; auto; cbn [iw_step]; rewrite ?E; try discriminate.
-  - destruct (writer_holds s); discriminate.
-  - destruct (iw_broken s); discriminate.
-  - apply (iw_ended_only_broken_run tr s R E).
+  destruct (writer_holds s); discriminate.
 Qed.
 
 (* writer progress: it can always go on, or waits for a reply that the (free) serve goroutine can deliver *)
@@ -309,15 +306,28 @@ Qed.
 
 (* the close request is always answered, whatever the writer does *)
 Lemma iw_close_completes s :
-  iw_v s = VClose -> iw_broken s = false ->
+  iw_v s = VClose ->
   exists s1, iw_step false false s VTry = Some s1 /\
     (iw_v s1 = VIdle /\ iw_closed s1 = true \/
      exists s2, iw_step false false s1 VFlushDone = Some s2 /\ iw_v s2 = VIdle /\ iw_closed s2 = true).
 Proof.
-  intros E B. cbn [iw_step]. rewrite E. destruct (writer_holds s).
+  intros E. cbn [iw_step]. rewrite E. destruct (writer_holds s).
   - eexists. split; [reflexivity|]. left. split; reflexivity.
-  - eexists. split; [reflexivity|]. right. cbn. rewrite B. eexists. split; [reflexivity|]. split; reflexivity.
+  - eexists. split; [reflexivity|]. right. cbn. eexists. split; [reflexivity|]. split; reflexivity.
 Qed.
+
+(* the pinned design: a refused data packet, then the peer's close: the stale
+   write error escapes from the close handler, Serve ends, the request is not answered *)
+Lemma iw_stale_error_ends_serve_pinned :
+  exists s, run (iw_step false true) iw_init [WStart; WSend; WAck false; VCloseArrive; VTry; VFlushDone] = Some s /\
+    iw_v s = VEnded /\ iw_closed s = false.
+Proof. eexists. split; [vm_compute; reflexivity|]. split; reflexivity. Qed.
+
+(* the same schedule on the code *)
+Lemma iw_stale_error_code :
+  exists s, run (iw_step false false) iw_init [WStart; WSend; WAck false; VCloseArrive; VTry; VFlushDone] = Some s /\
+    iw_v s = VIdle /\ iw_closed s = true /\ iw_broken s = true.
+Proof. eexists. split; [vm_compute; reflexivity|]. repeat split. Qed.
 
 (* a writer overtaken by the close is told to stop: its next packet fails *)
 Lemma iw_aborted_after_overtaking s s1 :
@@ -344,3 +354,218 @@ Lemma iw_code_overtake :
   exists s, run (iw_step false false) iw_init (overtake_trace ++ [WAck true]) = Some s /\
     iw_w s = WRet true /\ iw_v s = VIdle /\ iw_closed s = true /\ iw_aborted s = true.
 Proof. eexists. split; [vm_compute; reflexivity|]. repeat split. Qed.
+
+(* ====================================================================== *)
+(* 3. IBB: the table of expected sessions                                  *)
+(* ====================================================================== *)
+
+Ltac ex_break H := repeat match type of H with
+  | context [match ?x with _ => _ end] => destruct x eqn:?; try discriminate
+  end.
+
+(* an Expect call that is waiting and whose context is alive *)
+Definition ex_live (s : exstate) (i : nat) : Prop :=
+  exists c, nth_error (ex_calls s) i = Some c /\ e_pc c = EWait /\ e_canc c = false.
+
+Record ExInv (s : exstate) : Prop := {
+  xi_tab : forall j, ex_tab s = Some j -> j < length (ex_calls s);
+  xi_offer : forall j, ex_h s = OOffer j -> j < length (ex_calls s);
+  xi_live : forall i, ex_live s i -> ex_tab s = Some i \/ ex_h s = OOffer i
+}.
+
+Lemma ExInv_init : ExInv ex_init.
+Proof.
+  constructor; cbn; try discriminate. intros i (c & H & _). destruct i; discriminate.
+Qed.
+
+Lemma cancel_call_length l j : length (cancel_call l j) = length l.
+Proof. unfold cancel_call. destruct (nth_error l j); [apply upd_length|reflexivity]. Qed.
+
+Lemma cancel_call_nth l j i c :
+  nth_error (cancel_call l j) i = Some c ->
+  exists c0, nth_error l i = Some c0 /\ e_pc c = e_pc c0 /\ (e_canc c0 = true -> e_canc c = true) /\
+             (i = j -> e_canc c = true) /\ (i <> j -> c = c0).
+Proof.
+  unfold cancel_call. destruct (nth_error l j) as [cj|] eqn:Ej.
+  - intro H. destruct (Nat.eq_dec i j) as [->|N].
+    + rewrite (nth_upd_eq _ _ _ _ Ej) in H. injection H as <-. exists cj. cbn. repeat split; auto; congruence.
+    + rewrite nth_upd_neq in H by congruence. exists c. repeat split; auto; congruence.
+  - intro H. exists c. repeat split; auto; intros; subst; congruence.
+Qed.
+
+(* a step never makes a call live again, except the call it starts *)
+Lemma ex_live_back own s l s' i :
+  ex_step own s l = Some s' -> ex_live s' i ->
+  ex_live s i \/ (l = EStart /\ i = length (ex_calls s)).
+Proof.
+  intros H (c & Hc & Hp & Hn).
+  assert (Call : forall k f, ecall_step s k f = Some s' ->
+            (forall x x', f x = Some x' -> e_pc x' = EWait -> e_canc x' = false -> e_pc x = EWait /\ e_canc x = false) ->
+            ex_live s i).
+  { intros k f Hs Hf. unfold ecall_step in Hs. destruct (nth_error (ex_calls s) k) as [x|] eqn:Hk; [|discriminate].
+    destruct (f x) as [x'|] eqn:Hx; [|discriminate]. injection Hs as <-. cbn in Hc.
+    destruct (nth_upd_inv _ _ _ _ _ _ Hk Hc) as [[Ei Ec]|[N Hy]].
+    - subst. destruct (Hf x _ Hx Hp Hn) as [A B]. exists x. auto.
+    - exists c. auto. }
+  destruct l; cbn [ex_step] in H.
+  - injection H as <-. cbn in Hc.
+    assert (L : length (match ex_tab s with Some j => cancel_call (ex_calls s) j | None => ex_calls s end) = length (ex_calls s))
+      by (destruct (ex_tab s); [apply cancel_call_length|reflexivity]).
+    apply nth_app_inv in Hc. destruct Hc as [[_ Hc]|[E _]].
+    + left. destruct (ex_tab s) as [j|].
+      * destruct (cancel_call_nth _ _ _ _ Hc) as (c0 & H0 & P0 & C0 & Cj & Cn).
+        exists c0. split; [exact H0|]. split; [congruence|].
+        destruct (e_canc c0) eqn:E; [|reflexivity]. rewrite (C0 eq_refl) in Hn. discriminate.
+      * exists c. auto.
+    + right. split; [reflexivity|]. rewrite E, L. reflexivity.
+  - left. eapply Call; eauto. intros x x' Hf _ Hc'. injection Hf as <-. discriminate.
+  - left. eapply Call; eauto. intros x x' Hf Hp' _. cbv beta in Hf. destruct (e_pc x); try discriminate.
+    destruct (e_canc x); try discriminate. injection Hf as <-. discriminate.
+  - left. destruct (nth_error (ex_calls s) i0) as [x|] eqn:Hk; [|discriminate].
+    destruct (e_pc x) eqn:Ex; try discriminate. injection H as <-. cbn in Hc.
+    destruct (nth_upd_inv _ _ _ _ _ _ Hk Hc) as [[-> ->]|[N Hy]]; [discriminate|exists c; auto].
+  - left. ex_break H; injection H as <-; exists c; auto.
+  - left. ex_break H. injection H as <-. cbn in Hc. apply Nat.eqb_eq in Heqb. subst.
+    destruct (nth_upd_inv _ _ _ _ _ _ Heqo0 Hc) as [[-> ->]|[N Hy]]; [discriminate|exists c; auto].
+  - left. ex_break H; injection H as <-; exists c; auto.
+  - left. ex_break H; injection H as <-; exists c; auto.
+Qed.
+
+Lemma ex_live_not_cancelled_by_start s i :
+  ex_live (mkex (match ex_tab s with Some j => cancel_call (ex_calls s) j | None => ex_calls s end ++ [mkecall false EWait])
+                (Some (length (ex_calls s))) (ex_h s) (ex_accepted s)) i ->
+  i < length (ex_calls s) -> ex_tab s <> Some i.
+Proof.
+  intros (c & Hc & Hp & Hn) Lt E. cbn in Hc. rewrite E in Hc.
+  apply nth_app_inv in Hc. destruct Hc as [[_ Hc]|[E2 _]].
+  - destruct (cancel_call_nth _ _ _ _ Hc) as (c0 & _ & _ & _ & Cj & _). rewrite (Cj eq_refl) in Hn. discriminate.
+  - rewrite cancel_call_length in E2. lia.
+Qed.
+
+Theorem ExInv_step s l s' : ExInv s -> ex_step true s l = Some s' -> ExInv s'.
+Proof.
+  intros [It Io Il] H.
+  assert (Back := fun i => ex_live_back true s l s' i H).
+  assert (Len : length (ex_calls s) <= length (ex_calls s')).
+  { destruct l; cbn [ex_step] in H; unfold ecall_step in H; ex_break H; injection H as <-; cbn;
+      rewrite ?upd_length, ?app_length; try lia.
+    destruct (ex_tab s); rewrite ?cancel_call_length; cbn; lia. }
+  destruct l; cbn [ex_step] in H.
+  - (* EStart *)
+    assert (H' := H). injection H as <-. constructor; cbn [ex_tab ex_h ex_calls].
+    + intros j E. injection E as <-. rewrite app_length. cbn.
+      destruct (ex_tab s); rewrite ?cancel_call_length; lia.
+    + intros j E. specialize (Io j E). cbn in Len. lia.
+    + intros i L. destruct (Back i L) as [L0|[_ ->]]; [|left; reflexivity].
+      right. destruct (Il i L0) as [A|A]; [|exact A].
+      exfalso. destruct L0 as (c0 & H0 & _). apply (ex_live_not_cancelled_by_start s i L); [|exact A].
+      apply nth_error_Some. congruence.
+  - (* ECancel *)
+    unfold ecall_step in H. ex_break H. injection H as <-. constructor; cbn [ex_tab ex_h ex_calls]; rewrite ?upd_length; auto.
+    intros k L. destruct (Back k L) as [L0|[X _]]; [auto|discriminate].
+  - (* ECtx *)
+    unfold ecall_step in H. ex_break H. injection H as <-. constructor; cbn [ex_tab ex_h ex_calls]; rewrite ?upd_length; auto.
+    intros k L. destruct (Back k L) as [L0|[X _]]; [auto|discriminate].
+  - (* ECleanup: only its own entry *)
+    destruct (nth_error (ex_calls s) i) as [x|] eqn:Hk; [|discriminate].
+    destruct (e_pc x) eqn:Ex; try discriminate. injection H as <-.
+    constructor; cbn [ex_tab ex_h ex_calls]; rewrite ?upd_length; auto.
+    + intros j E. destruct (ex_tab s) as [j0|]; [|discriminate]. destruct (Nat.eqb j0 i); [discriminate|].
+      injection E as <-. apply It. reflexivity.
+    + intros k L. destruct (Back k L) as [L0|[X _]]; [|discriminate].
+      destruct (Il k L0) as [A|A]; [|right; exact A]. left. rewrite A.
+      destruct (Nat.eqb k i) eqn:E; [|reflexivity]. apply Nat.eqb_eq in E. subst k.
+      destruct L0 as (c0 & H0 & P0 & _). rewrite Hk in H0. injection H0 as <-. congruence.
+  - (* OArrive *)
+    destruct (ex_h s) eqn:Eh; try discriminate.
+    destruct (ex_tab s) as [j|] eqn:Et; injection H as <-; constructor; cbn [ex_tab ex_h ex_calls]; try discriminate.
+    + intros k E. injection E as <-. apply It. reflexivity.
+    + intros k L. destruct (Back k L) as [L0|[X _]]; [|discriminate].
+      destruct (Il k L0) as [A|A]; [right; congruence|discriminate].
+    + intros k L. destruct (Back k L) as [L0|[X _]]; [|discriminate].
+      destruct (Il k L0) as [A|A]; discriminate.
+  - (* ODeliver *)
+    destruct (ex_h s) as [|j'|] eqn:Eh; try discriminate. destruct (Nat.eqb j j') eqn:Ej; [|discriminate].
+    apply Nat.eqb_eq in Ej. subst j'.
+    destruct (nth_error (ex_calls s) j) as [x|] eqn:Hk; [|discriminate].
+    destruct (e_pc x) eqn:Ex; try discriminate. assert (H' := H). injection H as <-.
+    constructor; cbn [ex_tab ex_h ex_calls]; rewrite ?upd_length; auto; try discriminate.
+    intros k L. assert (L' := L). destruct (Back k L) as [L0|[X _]]; [|discriminate].
+    destruct (Il k L0) as [A|A]; [left; exact A|]. injection A as <-.
+    destruct L' as (c & Hc & Hp & _). cbn in Hc. rewrite (nth_upd_eq _ _ _ _ Hk) in Hc. injection Hc as <-. discriminate.
+  - (* OGiveUp *)
+    destruct (ex_h s) as [|j|] eqn:Eh; try discriminate.
+    destruct (nth_error (ex_calls s) j) as [x|] eqn:Hk; [|discriminate].
+    destruct (e_canc x) eqn:Ec; [|discriminate]. injection H as <-.
+    constructor; cbn [ex_tab ex_h ex_calls]; auto; try discriminate.
+    intros k L. destruct (Back k L) as [L0|[X _]]; [|discriminate].
+    destruct (Il k L0) as [A|A]; [left; exact A|]. injection A as <-.
+    destruct L0 as (c & Hc & _ & Hn). congruence.
+  - (* AAccept *)
+    destruct (ex_h s) eqn:Eh; try discriminate. injection H as <-.
+    constructor; cbn [ex_tab ex_h ex_calls]; auto; try discriminate.
+    intros k L. destruct (Back k L) as [L0|[X _]]; [|discriminate].
+    destruct (Il k L0) as [A|A]; [left; exact A|discriminate].
+Qed.
+
+Theorem ExInv_run tr s : run (ex_step true) ex_init tr = Some s -> ExInv s.
+Proof.
+  apply (invariant_run _ _ (ex_step true) ExInv ex_init ExInv_init).
+  intros s0 l s1 I H. exact (ExInv_step s0 l s1 I H).
+Qed.
+
+(* the entry of a live Expect call is never removed by another call: it is in
+   the table until an open request takes it for that very call *)
+Lemma ex_live_entry_run tr s i :
+  run (ex_step true) ex_init tr = Some s -> ex_live s i -> ex_tab s = Some i \/ ex_h s = OOffer i.
+Proof. intros R. apply (xi_live _ (ExInv_run tr s R)). Qed.
+
+(* ... and an open request is delivered to it *)
+Lemma ex_open_is_delivered tr s i :
+  run (ex_step true) ex_init tr = Some s -> ex_live s i -> ex_h s = OIdle ->
+  exists s1 s2, ex_step true s OArrive = Some s1 /\ ex_h s1 = OOffer i /\
+                ex_step true s1 (ODeliver i) = Some s2 /\ ex_h s2 = OIdle /\
+                exists c, nth_error (ex_calls s2) i = Some c /\ e_pc c = ERet EConn.
+Proof.
+  intros R L Eh. destruct (ex_live_entry_run tr s i R L) as [Et|Eo]; [|congruence].
+  destruct L as (c & Hc & Hp & Hn).
+  cbn [ex_step]. rewrite Eh, Et. eexists. eexists. split; [reflexivity|]. split; [reflexivity|].
+  cbn. rewrite Nat.eqb_refl, Hc, Hp. split; [reflexivity|]. split; [reflexivity|].
+  eexists. split; [eapply nth_upd_eq; eauto|reflexivity].
+Qed.
+
+(* a call that gives up removes its own entry: no entry outlives its call *)
+Lemma ex_cleanup_removes_own s i c :
+  nth_error (ex_calls s) i = Some c -> e_pc c = EGiveUp -> ex_tab s = Some i ->
+  exists s', ex_step true s (ECleanup i) = Some s' /\ ex_tab s' = None.
+Proof.
+  intros Hc Hp Et. cbn [ex_step]. rewrite Hc, Hp, Et, Nat.eqb_refl. eexists. split; reflexivity.
+Qed.
+
+(* while the hand-off to Accept is pending only an Accept call releases the serve goroutine *)
+Lemma ex_accept_step own s l s' :
+  ex_h s = OAccept -> ex_step own s l = Some s' -> l <> AAccept -> ex_h s' = OAccept.
+Proof.
+  intros Eh H N. destruct l; cbn [ex_step] in H; unfold ecall_step in H; rewrite ?Eh in H;
+    ex_break H; try (injection H as <-; cbn; auto); congruence.
+Qed.
+
+(* what the ownership test excludes: a cancelled first Expect removes the entry
+   of the second one that took over; the open request then finds nobody and the
+   serve goroutine waits for an Accept call, with the second Expect still waiting *)
+Definition takeover_trace : list exlabel := [EStart; EStart; ECtx 0; ECleanup 0; OArrive].
+
+Lemma ex_no_owner_check_loses_entry :
+  exists s, run (ex_step false) ex_init takeover_trace = Some s /\
+    ex_live s 1 /\ ex_tab s = None /\ ex_h s = OAccept /\
+    forall l s', ex_step false s l = Some s' -> l <> AAccept -> ex_h s' = OAccept.
+Proof.
+  eexists. split; [vm_compute; reflexivity|]. split; [eexists; repeat split|]. split; [reflexivity|].
+  split; [reflexivity|]. intros l s' H N. eapply ex_accept_step; eauto. reflexivity.
+Qed.
+
+(* the same history on the code: the second Expect gets the stream *)
+Lemma ex_takeover_code :
+  exists s, run (ex_step true) ex_init (takeover_trace ++ [ODeliver 1]) = Some s /\
+    map ecode (ex_calls s) = [2; 1] /\ ex_h s = OIdle.
+Proof. eexists. split; [vm_compute; reflexivity|]. split; reflexivity. Qed.
